@@ -23,6 +23,7 @@
 #ifndef MP_PROBLEM_H_
 #define MP_PROBLEM_H_
 
+#include <algorithm>
 #include <cstddef>  // for std::size_t
 #include <limits>
 #include <cmath>
@@ -1201,7 +1202,9 @@ public:
     auto suf_size = suf.num_values();
     /// Check this because Converter or solver can add more variables
     assert(suf_size <= (int)values.size());
-    for (auto i=suf_size; i--; ) {
+    /// Never read beyond the values supplied (e.g., one value
+    /// reported for an objective suffix of a multi-objective model)
+    for (auto i=std::min(suf_size, (int)values.size()); i--; ) {
       suf.set_value(i, values[i]);
     }
   }
